@@ -80,8 +80,8 @@ fn resolve_cut(bytes: &[u8], c: &Cut) -> Option<usize> {
     }
 }
 
-/// Simulates which bytes the request buffer receives: does some request's buffer hold bytes of the next request?
-fn buffer_overread(requests: &[Vec<u8>], segments: &[Vec<u8>]) -> bool {
+/// Simulates which bytes the request buffer receives: the first request whose buffer holds bytes of the next request.
+fn buffer_overread(requests: &[Vec<u8>], segments: &[Vec<u8>]) -> Option<usize> {
     const BUF: usize = 1024;
     // remaining length of each segment, consumed front to back
     let mut seg_left: std::collections::VecDeque<usize> = segments.iter().map(|s| s.len()).collect();
@@ -100,14 +100,14 @@ fn buffer_overread(requests: &[Vec<u8>], segments: &[Vec<u8>]) -> bool {
         }
     };
     let mut pos = 0usize;
-    for req in requests {
+    for (index, req) in requests.iter().enumerate() {
         let start = pos;
         let end = start + req.len();
         let head_end = start + head_len(req);
         // buffer reads: the first one, then on until the head's end is inside what was read (or the buffer is full)
         let mut filled = take(BUF, &mut seg_left);
         if filled == 0 {
-            return false;
+            return None;
         }
         while start + filled < head_end && filled < BUF {
             let n = take(BUF - filled, &mut seg_left);
@@ -117,20 +117,20 @@ fn buffer_overread(requests: &[Vec<u8>], segments: &[Vec<u8>]) -> bool {
             filled += n;
         }
         if start + filled > end {
-            return true;
+            return Some(index);
         }
         // the rest of the body is read with its exact length, in as many reads as it takes
         let mut got = start + filled;
         while got < end {
             let n = take(end - got, &mut seg_left);
             if n == 0 {
-                return false;
+                return None;
             }
             got += n;
         }
         pos = end;
     }
-    false
+    None
 }
 
 impl C06 {
@@ -144,7 +144,7 @@ impl C06 {
 impl Property for C06 {
     type Case = Case;
     const ID: &'static str = "C06";
-    const RULE: &'static str = "generated: 1–3 requests as in C05 (echo application), their bytes concatenated, and a segmentation: 0–4 cut points per case biased to the request line, header names/values, between CR and LF, exactly the head/body border, one byte into / before the end of the body, the 1 KiB buffer border, anywhere; request borders either cut or coalesced (two requests in one read); 5 % of the streams start with an empty line. A scripted AsyncRead returns one segment per call (at most the caller's capacity) and EOF after the last; a share of cases also runs through the real Session::manage over a socketpair, each segment written only after the server consumed the previous one (FIONREAD pacing). Oracle (metamorphic): the response byte stream equals the one under the canonical segmentation (one segment per request). Non-trivial = at least one cut strictly inside a request or one coalesced border; distinct by case.";
+    const RULE: &'static str = "generated: 1–3 requests as in C05 (echo application), their bytes concatenated, and a segmentation: 0–4 cut points per case biased to the request line, header names/values, between CR and LF, exactly the head/body border, one byte into / before the end of the body, the 1 KiB buffer border, anywhere; request borders either cut or coalesced (two requests in one read); 5 % of the streams start with an empty line, 5 % carry a header value that ends in a bare LF. A scripted AsyncRead returns one segment per call (at most the caller's capacity) and EOF after the last; a share of cases also runs through the real Session::manage over a socketpair, each segment written only after the server consumed the previous one (FIONREAD pacing). Oracle (metamorphic): the response byte stream equals the one under the canonical segmentation (one segment per request). Non-trivial = at least one cut strictly inside a request or one coalesced border; distinct by case.";
     const ASSUMPTIONS: &'static [&'static str] = &[
         "request heads stay below the 1 KiB buffer",
         "sequences with Connection: close only as the last request",
@@ -162,8 +162,23 @@ impl Property for C06 {
     fn chunk(&self, _tier: Tier) -> u64 {
         2000
     }
+    fn fail_fast(&self) -> bool {
+        // a request that gets no answer through the real session costs seconds of waiting per case
+        true
+    }
     fn in_domain(&self, case: &Case) -> bool {
-        !case.requests.is_empty() && case.requests.len() <= 3 && case.requests.iter().all(wreq_in_domain) && case.requests[..case.requests.len() - 1].iter().all(|w| wants_close(w) == Some(false))
+        // (a header value may end in a bare LF: not well-formed, but the code under test accepts it, frames it like any
+        // other line, and must do so under every segmentation)
+        let without_bare_lf = |w: &crate::harness::gen_req::WReq| {
+            let mut w = w.clone();
+            for (_, v) in w.headers.iter_mut() {
+                if v.ends_with('\n') {
+                    v.pop();
+                }
+            }
+            w
+        };
+        !case.requests.is_empty() && case.requests.len() <= 3 && case.requests.iter().all(|w| wreq_in_domain(&without_bare_lf(w))) && case.requests[..case.requests.len() - 1].iter().all(|w| wants_close(w) == Some(false))
     }
     fn strategy(&self, tier: Tier) -> BoxedStrategy<Case> {
         let kind = prop_oneof![
@@ -177,13 +192,23 @@ impl Property for C06 {
             3 => Just(CutKind::Anywhere),
         ];
         let cut = (0u8..3, kind, any::<u16>()).prop_map(|(request, kind, at)| Cut { request, kind, at });
-        (vec(echo_wreq(), 1..=3), vec(cut, 0..=4), vec(prop::bool::weighted(0.3), 2), prop::bool::weighted(tier.pick(0.03, 0.15)), prop::bool::weighted(0.05))
-            .prop_map(|(mut requests, cuts, coalesce, real_session, leading_crlf)| {
+        (vec(echo_wreq(), 1..=3), vec(cut, 0..=4), vec(prop::bool::weighted(0.3), 2), prop::bool::weighted(tier.pick(0.03, 0.15)), prop::bool::weighted(0.05), prop::option::weighted(0.05, any::<prop::sample::Index>()))
+            .prop_map(|(mut requests, cuts, coalesce, real_session, leading_crlf, bare_lf)| {
                 // the refused requests C05 adds to its sequences are not this check's subject
                 for w in requests.iter_mut() {
                     w.headers.retain(|(n, v)| !n.contains('\r') && !(n.eq_ignore_ascii_case("Content-Length") && v.parse::<u64>().is_err()));
                     if let Some(i) = w.target.find(" HTTP/1.0\r\n") {
                         w.target.truncate(i)
+                    }
+                }
+                // a header value that ends in a bare LF (on a line that is not the last one of the head)
+                if let Some(ix) = bare_lf {
+                    let w = &mut requests[0];
+                    if w.headers.len() >= 2 {
+                        let i = ix.index(w.headers.len() - 1);
+                        if !w.headers[i].0.eq_ignore_ascii_case("Connection") {
+                            w.headers[i].1.push('\n');
+                        }
                     }
                 }
                 // Connection: close only on the last request
@@ -249,7 +274,10 @@ impl Property for C06 {
         // reach beyond the request's end. A body tail is read with an exact length, so a following request in the
         // same segment as a body tail is *not* that shape and stays strictly checked.
         obs.nontrivial = inside || coalesced;
-        let coalesced = coalesced && buffer_overread(&bytes, &segments);
+        // … and it excuses only what comes *after* the request whose buffer held the foreign bytes: that request itself
+        // (and everything before it) must be answered as under the canonical segmentation
+        let overread_at = if coalesced { buffer_overread(&bytes, &segments) } else { None };
+        let coalesced = overread_at.is_some();
         obs.evals = segments.len() as u64;
         let class = if coalesced {
             "coalesced-requests"
@@ -274,6 +302,24 @@ impl Property for C06 {
             Ok(Ok(got)) => {
                 if got != canonical {
                     let d = diff_summary(&got, &canonical);
+                    // bytes of the canonical stream that answer the requests up to and including the over-reading one
+                    let class = match overread_at {
+                        Some(i) => {
+                            let mut keep = 0usize;
+                            for k in 0..=i {
+                                match crate::oracle::http::parse_response(&canonical[keep..], heads[k]) {
+                                    Ok(r) => keep += r.consumed,
+                                    Err(_) => break,
+                                }
+                            }
+                            if got.len() >= keep && got[..keep] == canonical[..keep] {
+                                class
+                            } else {
+                                "coalesced-border:response-before-the-border-differs"
+                            }
+                        }
+                        None => class,
+                    };
                     obs.fail(format!("{class}:responses-differ"), format!("segments of sizes {:?} (requests of {:?} bytes, heads {:?}): {}", segments.iter().map(|s| s.len()).collect::<Vec<_>>(), bytes.iter().map(|b| b.len()).collect::<Vec<_>>(), bytes.iter().map(|b| head_len(b)).collect::<Vec<_>>(), d.1));
                 }
             }
